@@ -84,7 +84,8 @@ func SetCondition(status map[string]interface{}, condition *StatusCondition) err
 			if cobj, ok := item.(map[string]interface{}); ok {
 				if ctype, ok := cobj["type"].(string); ok && ctype == condition.Type {
 					conditions[i] = condition.Object()
-					return nil
+					// NestedSlice returned a copy, so it has to be written back.
+					return unstructured.SetNestedField(status, conditions, "conditions")
 				}
 			}
 		}
